@@ -236,6 +236,65 @@ def check(case):
             with impl("compute mutated"):
                 (got2,) = dask.compute(lazy2, scheduler="sync")
             ensure(_same(got2, want2), f"mutated program computes {short(got2)}, eager {short(want2)}", "value-differs", scheduler="sync")
+            # the original and the mutated program in ONE graph: calls that differ must not share a key
+            # (not when a call carries an explicit dask_key_name: naming two different calls alike is the caller's doing)
+            with impl("compute original and mutated together"):
+                g1, g2 = (want, want2) if has_explicit_key(prog) else dask.compute(lazy, lazy2, scheduler="sync")
+            ensure(_same(g1, want) and _same(g2, want2), f"computed together, the program and its one-constant variant give {short(g1)} / {short(g2)}, eager {short(want)} / {short(want2)}", "together-differs")
+    # the same values bound to other keyword names (f(p=a, q=b) vs f(p=b, q=a)) is a different call
+    prog_sw, hit = swap_kwargs(prog)
+    if hit and not has_explicit_key(prog):
+        try:
+            want_sw = build(prog_sw, False, [])
+        except Exception:  # noqa: BLE001
+            return
+        with impl("build keyword-swapped program"):
+            lazy_a = build(prog, True, [])
+            lazy_sw = build(prog_sw, True, [])
+        with impl("compute program and keyword-swapped program together"):
+            ga, gs = dask.compute(lazy_a, lazy_sw, scheduler="sync")
+        ensure(_same(ga, want) and _same(gs, want_sw), f"computed together, the program and its keyword-swapped variant give {short(ga)} / {short(gs)}, eager {short(want)} / {short(want_sw)}", "kwargs-swap-together-differs")
+
+
+def has_explicit_key(e):
+    if isinstance(e, dict):
+        return bool(e.get("key")) or any(has_explicit_key(v) for v in e.values())
+    if isinstance(e, (list, tuple)):
+        return any(has_explicit_key(v) for v in e)
+    return False
+
+
+def swap_kwargs(e):
+    """(copy of the program in which the first call with >= 2 keyword arguments has the values of its first two keywords
+    exchanged, whether such a call exists and the two argument expressions differ)"""
+    import copy
+
+    e = copy.deepcopy(e)
+    done = [False]
+
+    def walk(x):
+        if done[0]:
+            return
+        if isinstance(x, dict):
+            kw = x.get("kwargs") if x.get("t") == "call" else None
+            if kw and len(kw) >= 2:
+                a, b = list(kw)[:2]
+                if kw[a] != kw[b]:
+                    # names exchanged, values kept in their written order: f(p=x, q=y) -> f(q=x, p=y)
+                    items = list(kw.items())
+                    items[0], items[1] = (b, kw[a]), (a, kw[b])
+                    kw.clear()
+                    kw.update(items)
+                    done[0] = True
+                    return
+            for v in x.values():
+                walk(v)
+        elif isinstance(x, (list, tuple)):
+            for v in x:
+                walk(v)
+
+    walk(e)
+    return e, done[0]
 
 
 def check_nout(case):
